@@ -78,6 +78,10 @@ func c03GenCfg(tier string, seed int64, idx int) (sim.GenCfg, int64) {
 		g.Profile = gen.Profile{Tree: 1, DeleteBias: 45, MaxDepth: 1, TreeMixed: idx%2 == 1, StyleBias: []int{0, 45}[(idx/2)%2]}
 	case 3:
 		g.Profile = gen.Profile{Obj: 3, Arr: 1, DeleteBias: 40, MaxDepth: 3, NewContainers: 30}
+	case 4:
+		// style churn: few deletions (the elements live on), most tree calls set or remove one of
+		// the few attribute keys on one or several elements, again and again, while collection runs
+		g.Profile = gen.Profile{Tree: 1, DeleteBias: 15, MaxDepth: 1, StyleBias: 65}
 	}
 	if idx%5 == 4 {
 		// one writer, readers that sync (and collect) at their own pace: the writer keeps
